@@ -34,13 +34,14 @@ def one(args):
         if p.returncode != 0:
             return sid, meta['property'], {'error': 'patch failed: ' + p.stdout[-300:]}
         res = {}
-        kk = set((k['property'], k['rule'], k['key']) for k in load_known().get('known', []))
+        from vt.core import known_set, is_known
+        kk = known_set()
         for pid in props:
             pm = importlib.import_module('vt.props.%s' % pid.lower())
             try:
                 rep = Report(pid, 'quick', Repo(base))
                 pm.run(rep)
-                v = [(o.rule, o.key, o.detail[:200]) for o in rep.obligations if not o.ok and (pid, o.rule, o.key) not in kk]
+                v = [(o.rule, o.key, o.detail[:200]) for o in rep.obligations if not o.ok and not is_known(pid, o.rule, o.key, kk)]
                 if not v and rep.gaps:
                     res[pid] = ('analysis-error', [('', '', '; '.join(rep.gaps)[:300])])
                 else:
